@@ -2,7 +2,7 @@
 From Coq Require Import QArith List String Bool Arith.
 Import ListNotations.
 From S2 Require Import Base.Num Base.Arr Model.Expr Model.Struct Model.Rates Model.InitPop
-     Model.Solvers Model.Derived.
+     Model.Solvers Model.Derived Gen.SolversGen.
 Local Open Scope nat_scope.
 
 Inductive solver := Euler | RK4.
@@ -50,7 +50,8 @@ Definition run_model (m : model) (s : solver) (p : env) : result run_result :=
   let n := num_times m in
   let y0 := initial_population O m p in
   let f := fun t y => get_comp_rates O m b p t y in
-  let step := match s with Euler => euler_step O | RK4 => rk4_step O end in
+  (* the step bodies are the ones translated from runner/jax/solvers.py on this run *)
+  let step := match s with Euler => gen_euler_step O | RK4 => gen_rk4_step O end in
   let outputs := solve_fixed O step f (of_Q O t0) (of_Q O h) y0 (n - 1) in
   let ts := times_F m in
   let flows := zip_with (fun t y => get_flow_rates O m b p t y) ts outputs in
